@@ -229,7 +229,10 @@ Render(doc, i, C, fuel) ==
                 fillL == IF c2.fill = "none" \/ c2.fo = -1 THEN <<>>
                          ELSE << [shape |-> [tag |-> nd.tag, g |-> nd.g, m |-> m2, rule |-> c2.rule],
                                   clips |-> cl, paint |-> c2.fill, e |-> c2.fo + e, grp |-> C.grp,
-                                  kind |-> "fill", ctx |-> c2] >>
+                                  kind |-> "fill", ctx |-> c2,
+                                  \* gradient fill: index of the referenced paint server (0 = plain colour)
+                                  gi |-> IF Has(at, "fillref") /\ c2.fill = "url(#" \o Get(at, "fillref") \o ")"
+                                         THEN ById(doc, Get(at, "fillref")) ELSE 0] >>
             IN fillL
        [] nd.tag = "use" ->
             LET ti == ById(doc, nd.ref)
